@@ -166,10 +166,30 @@ func anyHex(v any) string {
 }
 
 // anyAdapter makes a typed string schema usable as a Pipe target (core.ZodType[any]).
-type anyAdapter[T any] struct{ inner core.ZodType[T] }
+type anyAdapter[T any] struct {
+	inner core.ZodType[T]
+	tag   int
+}
+
+// stageTypeErr: the stage numbered tag answered with a lone invalid_type issue that is not one of its checks' — its
+// type dispatch rejected the value it was handed (observed at the stage boundary, independent of message texts).
+type stageTypeErr struct {
+	tag int
+	err error
+}
+
+func (e *stageTypeErr) Error() string { return e.err.Error() }
+func (e *stageTypeErr) Unwrap() error { return e.err }
 
 func (a anyAdapter[T]) Parse(input any, ctx ...*core.ParseContext) (any, error) {
-	return a.inner.Parse(input, ctx...)
+	r, err := a.inner.Parse(input, ctx...)
+	if err != nil {
+		var ze *gozod.ZodError
+		if errors.As(err, &ze) && len(ze.Issues) == 1 && ze.Issues[0].Code == core.InvalidType && msgRe.FindStringSubmatch(ze.Issues[0].Message) == nil {
+			return r, &stageTypeErr{tag: a.tag, err: err}
+		}
+	}
+	return r, err
 }
 func (a anyAdapter[T]) MustParse(input any, ctx ...*core.ParseContext) any {
 	r, err := a.Parse(input, ctx...)
@@ -184,8 +204,12 @@ func (a anyAdapter[T]) IsNilable() bool                   { return a.inner.IsNil
 
 func msg(tag, pos int) string { return fmt.Sprintf("m%d.%d", tag, pos) }
 
+// tyMsg: the schema's own message. It reaches the invalid_type issue of THIS stage's type dispatch, so that the
+// observation names the stage that rejected a value of another type ("err <tag>:999999").
+func tyMsg(tag int) string { return fmt.Sprintf("ty%d", tag) }
+
 func buildBaseVal(p *pipe, l *logger) core.ZodType[string] {
-	s := gozod.String()
+	s := gozod.String(tyMsg(p.tag))
 	for pos, c := range p.cs {
 		pos, c := pos, c
 		m := msg(p.tag, pos)
@@ -235,7 +259,7 @@ func buildBaseVal(p *pipe, l *logger) core.ZodType[string] {
 }
 
 func buildBasePtr(p *pipe, l *logger) core.ZodType[*string] {
-	s := gozod.StringPtr()
+	s := gozod.StringPtr(tyMsg(p.tag))
 	deref := func(v *string) string {
 		if v == nil {
 			return ""
@@ -305,9 +329,9 @@ func build(p *pipe, l *logger) core.ZodType[any] {
 	switch p.kind {
 	case "B":
 		if p.ptr {
-			return anyAdapter[*string]{buildBasePtr(p, l)}
+			return anyAdapter[*string]{buildBasePtr(p, l), p.tag}
 		}
-		return anyAdapter[string]{buildBaseVal(p, l)}
+		return anyAdapter[string]{buildBaseVal(p, l), p.tag}
 	case "T":
 		src := build(p.a, l)
 		return core.NewZodTransform[any, any](src, func(in any, _ *core.RefinementContext) (any, error) {
@@ -336,6 +360,7 @@ func asString(v any) string {
 }
 
 var msgRe = regexp.MustCompile(`^m(\d+)\.(\d+)$`)
+var tyRe = regexp.MustCompile(`^ty(\d+)$`)
 
 func observe(p *pipe, input any) string {
 	l := &logger{}
@@ -356,6 +381,17 @@ func observe(p *pipe, input any) string {
 }
 
 func errHead(err error) string {
+	var st *stageTypeErr
+	if errors.As(err, &st) {
+		// a stage's own message (tyMsg) must name the same stage whenever the library attaches it
+		var ze *gozod.ZodError
+		if errors.As(st.err, &ze) && len(ze.Issues) == 1 {
+			if mm := tyRe.FindStringSubmatch(ze.Issues[0].Message); mm != nil && mm[1] != strconv.Itoa(st.tag) {
+				return fmt.Sprintf("err ?type-error-of-stage-%d-carries-message-of-stage-%s:999999", st.tag, mm[1])
+			}
+		}
+		return fmt.Sprintf("err %d:999999", st.tag)
+	}
 	var ze *gozod.ZodError
 	if !errors.As(err, &ze) {
 		return "err ?notzod:" + strings.ReplaceAll(err.Error(), " ", "_")
@@ -363,7 +399,11 @@ func errHead(err error) string {
 	tag := -1
 	var ps []string
 	if len(ze.Issues) == 1 && ze.Issues[0].Code == core.InvalidType && msgRe.FindStringSubmatch(ze.Issues[0].Message) == nil {
-		return "err 999999:0" // the type dispatch of a stage rejected its input (lean: typeErrTag)
+		// the type dispatch of a stage rejected its input: the stage's own message names it (lean: typeErrPos)
+		if mm := tyRe.FindStringSubmatch(ze.Issues[0].Message); mm != nil {
+			return "err " + mm[1] + ":999999"
+		}
+		return "err ?untagged-type-error:" + strings.ReplaceAll(ze.Issues[0].Message, " ", "_")
 	}
 	for _, is := range ze.Issues {
 		mm := msgRe.FindStringSubmatch(is.Message)
@@ -485,7 +525,18 @@ func genPipe(r *hx.Rng, depth int, in string, st *genState, maxChecks int) *pipe
 
 func main() {
 	repoRoot := flag.String("repo", "/repo", "library source tree (for the go/ast fingerprint of the engine loop)")
+	genRaw := flag.String("gen-rawclass", "", "write Gen/RawClass.lean here and exit")
 	c := hx.ParseFlags()
+	if *genRaw != "" {
+		src := genRawClass()
+		if old, err := os.ReadFile(*genRaw); err != nil || string(old) != src {
+			if err := os.WriteFile(*genRaw, []byte(src), 0o644); err != nil {
+				fmt.Fprintln(os.Stderr, "gen-rawclass:", err)
+				os.Exit(4)
+			}
+		}
+		return
+	}
 	o, err := hx.NewOut(c.OutDir)
 	if err != nil {
 		fmt.Fprintln(os.Stderr, err)
